@@ -167,4 +167,5 @@ def replay_take(scn, variants, signature, extra_variants=()):
 def post(tier, seed, ctx):
     """code -> spec: randomly driven calls (up to 4-d, axes up to 5 labels) recorded and validated by TLC against spec/TraceOps.tla"""
     from .. import trace_ops
-    trace_ops.validate(PROP, tier, seed, ctx, ['take'])
+    # ... plus every top-level read made by the repository's own test suite, recorded by harness/pytest_recorder.py
+    trace_ops.validate(PROP, tier, seed, ctx, ['take'], repo_tests="take")
